@@ -44,11 +44,16 @@ def gen_plan(seed, tier, index):
     r = kernel.rng(seed, 'C09', tier, index, 'plan')
     cfg = gen_decoder_cfg(r, allow_filter=False)
     cfg['space'] = r.random() < 0.5
+    cfg['charset'] = 'unicode' if r.random() < 0.25 else 'ascii'
     npages = r.randint(1, 3)
     pages = [gen_page(r, 'pg%d' % k) for k in range(npages)]
     for p in pages:
         for ln in p['lines']:
             ln['frames'] = r.randint(1, 40) if r.random() < 0.2 else ln['frames']
+            if r.random() < 0.1:
+                ln['range'] = 'extreme'
+            if r.random() < 0.1:
+                ln['chars_variant'] = True
     ops = []
     saved = []
     fault_free = r.random() < 0.4
@@ -70,7 +75,7 @@ def gen_plan(seed, tier, index):
             ops.append({'op': 'restart'})
         else:
             ops.append({'op': 'load', 'page': r.choice(saved),
-                        'into': r.choice(['xml', 'xml', 'xml', 'xml+extra', 'other_page', 'fresh_copy']),
+                        'into': r.choice(['xml', 'xml', 'xml', 'xml+extra', 'other_page', 'fresh_copy', 'redensified']),
                         'other': r.randrange(npages), 'decode': r.random() < 0.85})
     return {'world': 'log', 'cfg': cfg, 'pages': pages, 'ops': ops, 'fault_free': fault_free,
             'clock': {'inc': [0.001], 'jumps': {}}}
@@ -103,12 +108,15 @@ def check_dense(res, line, k):
     if dense.shape[0] > 0:
         lp = line.get_full_logprobs()
         sums = np.exp(lp.astype(np.float64)).sum(axis=1)
-        if np.abs(sums - 1).max() > 1e-5:
+        # float32 arithmetic: a log-probability carries an absolute rounding error of about eps32 * |logit|
+        magnitude = float(np.abs(raw[stored]).max()) if stored.any() else 0.0
+        tol = 1e-5 + 4 * 1.2e-7 * max(magnitude, abs(FLOOR) if (~stored).any() and not stored.any() else magnitude)
+        if not np.all(np.isfinite(lp)) or np.abs(sums - 1).max() > tol:
             _v(res, 'dense', 'logprobs-not-normalised', 'line %s: rows sum to %s' % (line.id, sums[:3]), k)
             return False
         d64 = dense.astype(np.float64)
         ref = d64 - np.log(np.exp(d64 - d64.max(axis=1, keepdims=True)).sum(axis=1, keepdims=True)) - d64.max(axis=1, keepdims=True)
-        if np.abs(ref - lp).max() > 1e-4:
+        if np.abs(ref - lp).max() > 1e-4 + 8 * 1.2e-7 * magnitude:
             _v(res, 'dense', 'logprobs-not-log-softmax', 'line %s: log-probabilities differ from log-softmax of the dense logits' % line.id, k)
             return False
         if stored.any() and (~stored).any():
@@ -123,7 +131,7 @@ def execute(plan):
     log = kernel.EventLog()
     clock = kernel.SimClock(plan['clock']['inc'], plan['clock']['jumps'], log)
     cfg = plan['cfg']
-    chars = content.charset(cfg['nchars'], cfg.get('space', False))
+    chars = content.charset(cfg['nchars'], cfg.get('space', False), cfg.get('charset', 'ascii'))
     d = scratch_dir('log')
     try:
         with quiet():
@@ -236,6 +244,20 @@ def execute(plan):
                 if into in ('xml', 'xml+extra'):
                     target = PageLayout()
                     target.from_pagexml_string(store_xml[pg])
+                elif into == 'redensified':
+                    # a layout with the same line ids that already carries OTHER logits and has already been
+                    # decoded, confidence-scored and ALTO-exported (i.e. densified) before the load
+                    alt = copy.deepcopy(spec)
+                    for ln in alt['lines']:
+                        ln['seed'] = ln['seed'] + 1
+                        ln.pop('range', None)
+                    target = content.build_layout(alt, chars)
+                    try:
+                        new_parser(ini).process_page(None, target)
+                        alto_text(target)
+                    except Exception:
+                        pass
+                    res.probe('load_over_already_densified_layout')
                 elif into == 'fresh_copy':
                     target = content.build_layout(spec, chars)
                     for ln in target.lines_iterator():
@@ -291,7 +313,8 @@ def execute(plan):
                 if n_restored:
                     res.probe('lines_restored', n_restored)
                 # ---- consumer: re-decode and re-export from the rebuilt layout
-                if op.get('decode') and into in ('xml', 'xml+extra'):
+                if op.get('decode') and (into in ('xml', 'xml+extra') or (
+                        into == 'redensified' and cfg.get('conf_threshold') in (None, 'inf'))):
                     if consumer is None:
                         consumer = new_parser(ini)
                     ref_layout = copy.deepcopy(originals[pg])
